@@ -74,6 +74,16 @@ Record total_cmp {K : Type} (c : K -> K -> comparison) : Prop := {
   tc_lt_trans : forall x y z, c x y = Lt -> c y z = Lt -> c x z = Lt
 }.
 
+(* lexicographic product of two comparisons *)
+Definition lexc {K L} (c : K -> K -> comparison) (d : L -> L -> comparison) (a b : K * L) : comparison :=
+  match c (fst a) (fst b) with Eq => d (snd a) (snd b) | o => o end.
+
+(* the exact order on numbers without a NaN component: lexicographic on (re, im) in (Q u {+-inf})^2.
+   (`dflt` only makes num_key total; it is never consulted on num_ok numbers.) *)
+Definition dflt (o : option ext) : ext := match o with Some x => x | None => PosInf end.
+Definition num_key (n : nnum) : ext * ext := (dflt (fst (num_val n)), dflt (snd (num_val n))).
+Definition num_compare (a b : nnum) : comparison := lexc ext_compare ext_compare (num_key a) (num_key b).
+
 (* ---------------------------------------------------------------- lexicographic extension *)
 Section Lex.
   Context {A : Type} (cmp : A -> A -> option comparison).
@@ -111,4 +121,63 @@ Definition ordered_pair (a b : obj) : bool :=
   match a, b with
   | ONum _, ONum _ | OList _, OList _ | OString _, OString _ | OVector _, OVector _ | OBytes _, OBytes _ => true
   | _, _ => false
+  end.
+
+(* ---------------------------------------------------------------- further notions used by the theorem statements *)
+(* (obj_total: a total comparison on ALL values -- kinds ranked, numbers by exact value with NaN
+   components defaulted, sequences lexicographic -- of which the language's partial order is proved
+   to be a restriction; it is a proof device and the yardstick of `stable_sort_of`.) *)
+Definition is_Eq (o : option comparison) : bool := match o with Some Eq => true | _ => false end.
+
+(* values built from well-formed numbers without NaN, strings, bytes and lists/vectors of such *)
+Inductive clean : obj -> Prop :=
+| clean_num n : num_ok n -> clean (ONum n)
+| clean_list l : Forall clean l -> clean (OList l)
+| clean_str s : clean (OString s)
+| clean_vec v : Forall num_ok v -> clean (OVector v)
+| clean_bytes b : clean (OBytes b).
+
+Fixpoint slice_total {A} (c : A -> A -> comparison) (l r : list A) : comparison :=
+  match l, r with
+  | [], [] => Eq
+  | [], _ :: _ => Lt
+  | _ :: _, [] => Gt
+  | x :: l', y :: r' => match c x y with Eq => slice_total c l' r' | o => o end
+  end.
+
+Definition rank (a : obj) : Z :=
+  match a with
+  | ONull => 0 | ONum _ => 1 | OList _ => 2 | OString _ => 3 | OVector _ => 4 | OBytes _ => 5
+  | ODict _ => 6 | OOther _ => 7
+  end.
+
+Fixpoint obj_total (a b : obj) {struct a} : comparison :=
+  match a, b with
+  | ONum x, ONum y => num_compare x y
+  | OList l, OList r =>
+    (fix go (l r : list obj) {struct l} : comparison :=
+       match l, r with
+       | [], [] => Eq
+       | [], _ :: _ => Lt
+       | _ :: _, [] => Gt
+       | x :: l', y :: r' => match obj_total x y with Eq => go l' r' | o => o end
+       end) l r
+  | OString l, OString r => slice_total N.compare l r
+  | OVector l, OVector r => slice_total num_compare l r
+  | OBytes l, OBytes r => slice_total N.compare l r
+  | _, _ => rank a ?= rank b
+  end.
+
+Definition pairwise_comparable (l : list obj) : Prop :=
+  forall x y, In x l -> In y l -> obj_partial_cmp x y <> None.
+Definition pairwise_ncmp (l : list obj) : Prop :=
+  forall x y, In x l -> In y l -> is_ok (ncmp x y) = true.
+
+Definition le_obj (x y : obj) : Prop := exists o, obj_partial_cmp x y = Some o /\ o <> Gt.
+Definition eqv_obj (k x : obj) : bool := is_Eq (obj_partial_cmp x k).
+
+Fixpoint link_list (x : obj) (links : list (cmpop * obj)) : list (cmpop * obj * obj) :=
+  match links with
+  | [] => []
+  | (op, y) :: r => (op, x, y) :: link_list y r
   end.
